@@ -133,6 +133,20 @@ def run(ctx):
             ctx.count("E2_explains_flow", "unsolved")
         ctx.case(describe(args), nontrivial=nontriv, sample={"edges": describe(args)["edges"], "k": args["k"],
                                                               "opts": args["optimization_options"]})
+    # a broken correspondence without a failing input so far: search harder on the property level
+    if ctx.engines.get("E1_kFlowDecomp_LP", {}).get("disagreements") and not any(v["concrete"] for v in ctx.violations):
+        for i in range(ctx.budget(600, 6000)):
+            rng = ctx.rng("search", i)
+            args, paths, ws = make_kfd(rng)
+            args["k"] = args["k"] + rng.choice([0, 1, 2])          # spare layers make over-/under-explaining visible
+            args["optimization_options"]["optimize_with_greedy"] = False
+            try:
+                m = fp.kFlowDecomp(**args); m.solve()
+            except Exception:
+                continue
+            ctx.count("search_after_broken_E1", "cases")
+            if m.is_solved() and not check_solution(ctx, "kFlowDecomp", args, m, m.get_solution()):
+                break
     # MinFlowDecomp: every route (greedy / MILP / lower bounds / node origin)
     n2 = ctx.budget(60, 1500)
     for i in range(n2):
